@@ -580,6 +580,11 @@ fn end_to_end(report: &mut Report, seed: u64, idx: u64) {
     let d = *rng.choose(&[1usize, 2, 5, 10]);
     let cond: f64 = *rng.choose(&[1.0, 100.0, 1e4]);
     let target = if lowrank { Target::correlated(&mut rng, d, cond.min(100.0)) } else { Target::scaled(&mut rng, d, cond) };
+    let diag_sigma: Option<Vec<f64>> = match &target {
+        Target::Diag { sigma, .. } => Some(sigma.clone()),
+        _ => None,
+    };
+    let mut last_id = i64::MIN;
     let preset = if lowrank { Preset::LowRankNuts } else { Preset::DiagNuts };
     let start = start_point(&target, &mut rng);
     let mut patches: Vec<(&str, J)> = vec![("num_tune", json!(300)), ("num_draws", json!(20)), ("store_transformed", json!(true))];
@@ -611,6 +616,25 @@ fn end_to_end(report: &mut Report, seed: u64, idx: u64) {
                 return;
             }
         };
+        // diagonal estimator on a diagonal Gaussian: every estimate installed from a window of at least three points is
+        // exact (draws and gradients of any set of points determine sigma), whichever window it is - the first one, the
+        // one after a switch, the last one
+        if let (false, Some(sc), Some(w), Some(sig)) = (lowrank, chain.scales(), chain.window(), diag_sigma.as_ref()) {
+            if sc.id != last_id && w.foreground_count >= 3 && dd >= 1 {
+                for i in 0..d {
+                    if !((sc.stds[i] - sig[i]).abs() <= 1e-7 * sig[i]) {
+                        report.violation(
+                            "C08:diag:window_estimate_not_exact_in_chain",
+                            format!("draw {dd}: coordinate {i}: installed std {:e}, sigma {:e} (window of {} points, background {})", sc.stds[i], sig[i], w.foreground_count, w.background_count),
+                            replay.clone(),
+                        );
+                        return;
+                    }
+                }
+                report.count("in_chain_window_estimates_checked", 1);
+            }
+            last_id = sc.id;
+        }
         // scales of the transformation in use stay finite and positive throughout
         if let Some(s) = chain.scales() {
             if s.stds.iter().chain(s.inv_stds.iter()).chain(s.eig_sqrt.iter()).chain(s.eig_sqrt_inv.iter()).any(|v| !(v.is_finite() && *v > 0.0)) || !s.logdet.is_finite() {
